@@ -16,7 +16,7 @@ RULE = ('Part api: per library a one-cell circuit built with Node/Line in three 
         'grouped freely into CELL blocks - several blocks per instance, several (INSTANCE) blocks, interleaved - with TIMINGCHECK blocks and comments '
         'as noise. Oracle: ground-truth array [3, lines, 2, 2] filled from the model in file order (the line feeding a pin is found through the '
         'branch-fork name or an own reading of the library pin order); iopaths() and interconnects() must equal it exactly, zeros everywhere else. '
-        'non-trivial: >= 2 CELL blocks for one instance or >= 2 interconnect blocks, plus an edge-qualified path and an empty triple; distinct by SHA-1. CELL blocks for instances that are not in the circuit but whose names resemble existing ones (bracket / underscore spelling of a register bit, other case, longer name) are part of the noise.')
+        'non-trivial: >= 2 CELL blocks for one instance or >= 2 interconnect blocks, plus an edge-qualified path and an empty triple; distinct by SHA-1. CELL blocks for instances that are not in the circuit but whose names resemble existing ones (bracket / underscore spelling of a register bit, other case, longer name) are part of the noise. Part api includes a user-defined library whose pin names contain a dash (en, en-n).')
 ASSUMPTIONS = ['IOPATH entries only for connected pins; at most one INTERCONNECT entry per (driver, reader) pair; values are non-negative decimals',
                'instance names contain no hierarchy divider']
 
@@ -298,13 +298,17 @@ def enum_api(tier):
             yield dict(lib=lib, first=first)
     for first in (0, 1, 2):
         yield dict(lib='custom', first=first)      # a user-defined TechLib whose cell lists its output before its inputs
+        yield dict(lib='custom2', first=first)     # ... and one whose pin names contain '-' (en, en-n): one pin name is a prefix of the other
 
 
 def prop_api(case):
     from kyupy import sdf, techlib
     from kyupy.circuit import Circuit, Node, Line
     lib = case['lib']
-    if lib == 'custom':
+    if lib == 'custom2':
+        tlib = techlib.TechLib('MYGATE input(en,en-n) output(q) q=AND2(en,en-n) ;\n')
+        cell, ipins, opin = 'MYGATE', ['en', 'en-n'], 'q'
+    elif lib == 'custom':
         tlib = techlib.TechLib('MYNAND2 output(Y) input(A,B) Y=NAND2(A,B) ;\nMYINV input(A) output(Y) Y=INV1(A) ;\n')
         cell, ipins, opin = 'MYNAND2', ['A', 'B'], 'Y'
         if (tlib.pin_index(cell, 'A'), tlib.pin_index(cell, 'B'), tlib.pin_index(cell, 'Y')) != (0, 1, 0):
